@@ -8,6 +8,7 @@ import (
 	"fmt"
 	"log"
 	"math"
+	"math/bits"
 	"os"
 	"runtime"
 	"strings"
@@ -103,10 +104,27 @@ func OpSub(x Value, y Value) Value {
 func OpMul(x Value, y Value) Value {
 	if xi, xok := SuIntToInt(x); xok {
 		if yi, yok := SuIntToInt(y); yok {
-			return IntVal(xi * yi)
+			if r, ok := mulInt(xi, yi); ok {
+				return IntVal(r)
+			}
+			// else the product does not fit an int, use Dnum
 		}
 	}
 	return SuDnum{Dnum: dnum.Mul(ToDnum(x), ToDnum(y))}
+}
+
+// mulInt returns x * y and whether the product fits in an int
+// i.e. false if the multiplication overflowed (wrapped)
+func mulInt(x, y int) (int, bool) {
+	const half = 1 << (bits.UintSize/2 - 1)
+	if -half <= x && x < half && -half <= y && y < half {
+		return x * y, true // usual case, cannot overflow
+	}
+	r := x * y
+	if y != 0 && (r/y != x || (x == math.MinInt && y == -1)) {
+		return 0, false
+	}
+	return r, true
 }
 
 func OpDiv(x Value, y Value) Value {
